@@ -26,6 +26,7 @@ DBPages == {"J", "S", "K", "H"}
 IsDB(p) == p \in DBPages
 
 One(p, b) == IF b < 128 THEN b
+             ELSE IF p = "J" /\ b \in 161..223 THEN 65377 + (b - 161)   \* code page 932's single-byte half-width katakana
              ELSE IF IsDB(p) THEN DontCare            \* a lone high byte in a double-byte page
              ELSE SBHigh[p][b - 127]
 DBLookup(p, lead, trail) ==
@@ -33,6 +34,7 @@ DBLookup(p, lead, trail) ==
   LET hits == {i \in 1..Len(DBPairs[p]) : DBPairs[p][i][1] = lead /\ DBPairs[p][i][2] = trail} IN
   IF hits = {} THEN DontCare ELSE DBPairs[p][CHOOSE i \in hits : TRUE][3]
 
+OptionalCp(c) == -(1000 + c)      \* "c may or may not appear here"
 RECURSIVE Dec(_, _)
 Dec(bs, cp) ==
   IF bs = <<>> THEN <<>>
@@ -40,7 +42,10 @@ Dec(bs, cp) ==
   ELSE IF bs[1] = Caret /\ Len(bs) >= 2 /\ bs[2] \in DOMAIN Page THEN Dec(SubSeq(bs, 3, Len(bs)), Page[bs[2]])
   ELSE IF bs[1] = Caret /\ Len(bs) >= 2 /\ bs[2] = 56 THEN <<Caret, 56>> \o Dec(SubSeq(bs, 3, Len(bs)), "L")
   ELSE IF IsDB(cp) /\ bs[1] \in LeadBytes[cp] /\ Len(bs) >= 2
-       THEN <<DBLookup(cp, bs[1], bs[2])>> \o Dec(SubSeq(bs, 3, Len(bs)), cp)
+       THEN LET c == DBLookup(cp, bs[1], bs[2]) IN
+            \* a pair the page does not define: only totality is required of its own rendering, and the converter may show an
+            \* ASCII trail byte again after it (the WHATWG decoders do); either way the scan has consumed both bytes
+            (IF c = DontCare /\ bs[2] < 128 THEN <<DontCare, OptionalCp(bs[2])>> ELSE <<c>>) \o Dec(SubSeq(bs, 3, Len(bs)), cp)
   ELSE <<One(cp, bs[1])>> \o Dec(Tail(bs), cp)
 CpDecode(bs) == Dec(bs, "L")
 
@@ -50,7 +55,11 @@ Repertoire == (0..127) \cup UNION {{SBHigh[p][i] : i \in 1..128} : p \in SBPages
               \cup (IF UseTable THEN UNION {{DBTable[p][i] : i \in 1..Len(DBTable[p])} : p \in DBPages} \ {-1} ELSE {})
 Subst(s, known) == [i \in 1..Len(s) |-> IF s[i] \in known THEN s[i] ELSE 63]      \* '?' for what no page has
 \* equal up to don't-care positions of the decoded side
-Matches(decoded, want) == Len(decoded) = Len(want) /\ \A i \in 1..Len(want) : decoded[i] = DontCare \/ decoded[i] = want[i]
+RECURSIVE MatchR(_, _)
+MatchR(d, w) == IF d = <<>> THEN w = <<>>
+                ELSE IF d[1] <= -1000 THEN MatchR(Tail(d), w) \/ (w # <<>> /\ w[1] = -(d[1] + 1000) /\ MatchR(Tail(d), Tail(w)))
+                ELSE w # <<>> /\ (d[1] = DontCare \/ d[1] = w[1]) /\ MatchR(Tail(d), Tail(w))
+Matches(decoded, want) == MatchR(decoded, want)
 
 \* ---------------------------------------------------------------- escaping and colours (C12)
 UnescMap == (118 :> 124) @@ (97 :> 42) @@ (99 :> 58) @@ (100 :> 92) @@ (115 :> 47) @@ (113 :> 63) @@ (116 :> 34)
